@@ -59,6 +59,7 @@ Inductive op :=
 | OWalkDir (p : pathspec)
 | OProbe (p : pathspec)             (* every observer on one path (C05) *)
 | OSnap (k : nat)                   (* full snapshot of instance k through its public API *)
+| OTree (k : nat)                   (* the same without opening any file (metadata and listings only) *)
 (* handles: [r] is the index of the op that produced the handle *)
 | OHRead (r : nat) (n : N)
 | OHSeek (r : nat) (sf : seekfrom)
@@ -67,6 +68,7 @@ Inductive op :=
 | OHDrop (r : nat)
 | OHReadToEnd (r : nat)
 (* harness control *)
+| ONop                              (* harness-only step (e.g. hostile directory content on disk) *)
 | OSetFault (id : nat) (k : nat)    (* the k-th next call through wrapper id fails *)
 | OClearLog.
 
@@ -105,6 +107,41 @@ Definition read_all (v : vfs) (p : path) : bprog (res bytes) :=
   let* r := Call (BH h HReadToEnd) Ret in
   let* _ := Call (BH h HDrop) Ret in
   Ret r.
+
+Fixpoint snap_dir_gen (reads : bool) (fuel : nat) (v : vfs) (p : path) : bprog (list snapentry) :=
+  match fuel with
+  | O => Ret [mkSnap p out_of_fuel None None]
+  | S fuel' =>
+      let* r := vp_read_dir v p in
+      match r with
+      | Ok children =>
+          (fix each (cs : list path) : bprog (list snapentry) :=
+             match cs with
+             | [] => Ret []
+             | c :: cs' =>
+                 let* md := vp_metadata v c in
+                 let* here :=
+                   match md with
+                   | Ok m =>
+                       match m_type m with
+                       | File => if reads then let* bs := read_all v c in Ret [mkSnap c md (Some bs) None]
+                                 else Ret [mkSnap c md None None]
+                       | Dir => let* sub := snap_dir_gen reads fuel' v c in Ret (mkSnap c md None None :: sub)
+                       end
+                   | _ => Ret [mkSnap c md None None]
+                   end in
+                 let* rest := each cs' in
+                 Ret (here ++ rest)
+             end) children
+      | Err e => Ret [mkSnap p (Err e) None (Some e)]
+      | Panic => Ret [mkSnap p Panic None None]
+      end
+  end.
+
+Definition stat_tree (fuel : nat) (v : vfs) : bprog outcome :=
+  let* md := vp_metadata v [] in
+  let* rest := snap_dir_gen false fuel v [] in
+  Ret (Ok (VSnap (mkSnap [] md None None :: rest))).
 
 Fixpoint snap_dir (fuel : nat) (v : vfs) (p : path) : bprog (list snapentry) :=
   match fuel with
@@ -228,6 +265,7 @@ Section Run.
           end)
     | OProbe ps => on_path ps do_probe
     | OSnap k => match inst k with Some v => snapshot fuel v | None => Ret out_of_fuel end
+    | OTree k => match inst k with Some v => stat_tree fuel v | None => Ret out_of_fuel end
     | _ => Ret out_of_fuel
     end.
 
@@ -267,6 +305,7 @@ Section Run.
     | OSetFault id k =>
         let st := rs_store rs in
         (mkRS (mkStore (st_bases st) (st_handles st) (st_log st) (Some (id, k))) (rs_regs rs), Ok VUnit)
+    | ONop => (rs, Ok VUnit)
     | OClearLog =>
         let st := rs_store rs in
         (mkRS (mkStore (st_bases st) (st_handles st) [] None) (rs_regs rs), Ok VUnit)
